@@ -215,8 +215,13 @@ theorem parseActionWith_spec (cx : PCtx) (fuel n B : Nat) (exprs : PM CTree) (k 
     intro k s3 h3 _
     refine wp_of_spec (parseStr_spec cx (n - 1) B) h3 (Nat.le_refl _) ?_
     intro v s4 h4 _
-    simp only [wp_curLine, wp_pure]
-    exact ⟨h4, hpos, by simp [Wact, wfK, Expr.leafAction, leafOK]⟩
+    simp only [wp_curLine]
+    apply wp_expandMac _ _ h4 (fun _ h => h)
+    intro k' ms1 h5
+    apply wp_expandMac _ _ h5 (fun _ h => h)
+    intro v' ms2 h6
+    simp only [wp_pure]
+    exact ⟨h6, hpos, by simp [Wact, wfK, Expr.leafAction, leafOK]⟩
   · -- attachment
     refine wp_of_spec (expectTk_spec cx .lbrace (by simp) (n - 1) B) h2 (Nat.le_refl _) ?_
     intro _ s3 h3 _
@@ -259,8 +264,11 @@ theorem parseActionWith_spec (cx : PCtx) (fuel n B : Nat) (exprs : PM CTree) (k 
   · -- flags
     refine wp_of_spec (parseStr_spec cx (n - 1) B) h2 (Nat.le_refl _) ?_
     intro str s3 h3 _
-    simp only [wp_curLine, wp_pure]
-    exact ⟨h3, hpos, by simp [Wact, wfK, Expr.leafAction, leafOK]⟩
+    simp only [wp_curLine]
+    apply wp_expandMac _ _ h3 (fun _ h => h)
+    intro str' ms1 h4
+    simp only [wp_pure]
+    exact ⟨h4, hpos, by simp [Wact, wfK, Expr.leafAction, leafOK]⟩
   · -- label
     refine wp_of_spec (parseStrings_spec cx fuel (n - 1) B (by omega)) h2 (Nat.le_refl _) ?_
     intro ss s3 h3 _
